@@ -60,6 +60,7 @@ def tyOfText (e : Sexp) : Option Ty :=
   e.bytes?.bind fun bs =>
     (Pcore.Syntax.parseType (Syn.mkEnv []) (Pcore.Syntax.decodeUtf8 bs)).bind Pcore.Syntax.Ty.toLat
 
+mutual
 partial def tyOf : Sexp → Option Ty
   | .list [.atom "txt", s] => tyOfText s
   | .atom "any" => some .any
@@ -123,6 +124,11 @@ partial def tyOf : Sexp → Option Ty
   | .list [.atom "type", t] => (tyOf t).map .typ
   | .list [.atom "sens", t] => (tyOf t).map .sensitive
   | .list [.atom "itr", t] => (tyOf t).map .iterator
+  | .list [.atom "call", p, r, b] => do
+      let p' ← optTyOf p
+      let r' ← optTyOf r
+      let b' ← optTyOf b
+      pure (.callable p' r' b')
   | .list [.atom "rt", r, n, .atom "none"] => do
       let r' ← r.str?
       let n' ← n.str?
@@ -136,6 +142,13 @@ partial def tyOf : Sexp → Option Ty
   | .list [.atom "obj"] => some (.object none)
   | .list (.atom "obj" :: ns) => (ns.mapM Sexp.nat?).map fun p => .object (some p)
   | _ => none
+
+/-- an optional part of a Callable: `none` or `(T)` -/
+partial def optTyOf : Sexp → Option (Option Ty)
+  | .atom "none" => some none
+  | .list [t] => (tyOf t).map some
+  | _ => none
+end
 
 def rngStr (r : Rng) : String := s!"{r.lo} {r.hi}"
 
@@ -166,6 +179,9 @@ partial def tyStr : Ty → String
   | .typ t => s!"(type {tyStr t})"
   | .sensitive t => s!"(sens {tyStr t})"
   | .iterator t => s!"(itr {tyStr t})"
+  | .callable p r b =>
+      let o := fun (x : Option Ty) => match x with | none => "none" | some t => s!"({tyStr t})"
+      s!"(call {o p} {o r} {o b})"
   | .runtime r n none => s!"(rt {hexOfString r} {hexOfString n} none)"
   | .runtime r n (some p) => s!"(rt {hexOfString r} {hexOfString n} ({hexOfString p}))"
   | .iterable t => s!"(iter {tyStr t})"
@@ -207,6 +223,7 @@ partial def rxOk : Ty → Bool
   | .struct ms => ms.all fun m => rxOk m.2.2
   | .variant ts => ts.all rxOk
   | .optional t | .notUndef t | .typ t | .sensitive t | .iterable t | .iterator t => rxOk t
+  | .callable p r b => (p.map rxOk).getD true && (r.map rxOk).getD true && (b.map rxOk).getD true
   | _ => true
 
 def ty? (e : Sexp) : Option Ty := do
